@@ -18,7 +18,6 @@ From CanTranslated Require Import ParserTypes ParserGlue ParserTranslated.
 Import ListNotations.
 Open Scope Z_scope.
 
-Definition run_as {T} (to_def : T -> def) (m : M T) : M def := bind m (fun d => ret (to_def d)).
 
 (** hand-model loops and translated loops are never destructed by [step]: they are rewritten with
     their loop lemma first *)
@@ -460,6 +459,41 @@ Section Equiv.
   Proof.
     intros. unfold Parser_discardLine, discard_line. norm. unfold use_whitespace. cbv beta iota.
     rewrite Parser_discardLine_loop_eq. destruct (discard_loop ilh idh F F _); reflexivity.
+  Qed.
+
+  (** ================================================================ Parse(): keyword switch and loop *)
+  Ltac disp :=
+    first [ apply TP_VersionDef_parseFrom_eq | apply TP_BitTimingDef_parseFrom_eq | apply TP_NewSymbolsDef_parseFrom_eq
+          | apply TP_NodesDef_parseFrom_eq | apply TP_MessageDef_parseFrom_eq | apply TP_SignalDef_parseFrom_eq
+          | apply TP_EnvironmentVariableDef_parseFrom_eq | apply TP_CommentDef_parseFrom_eq
+          | apply TP_AttributeDef_parseFrom_eq | apply TP_AttributeDefaultValueDef_parseFrom_eq
+          | apply TP_AttributeValueForObjectDef_parseFrom_eq | apply TP_ValueDescriptionsDef_parseFrom_eq
+          | apply TP_ValueTableDef_parseFrom_eq | apply TP_SignalValueTypeDef_parseFrom_eq
+          | apply TP_MessageTransmittersDef_parseFrom_eq | apply TP_EnvironmentVariableDataDef_parseFrom_eq
+          | apply TP_UnknownDef_parseFrom_eq ].
+
+  Lemma Parser_Parse_dispatch_eq : forall defs kw st,
+    Parser_Parse_dispatch ilh idh F defs kw st
+    = parse_def_with ilh idh F (parse_bit_timing ilh idh F) (parse_unknown ilh idh F) (parse_message ilh idh F) defs kw st.
+  Proof.
+    intros. unfold Parser_Parse_dispatch, parse_def_with.
+    cbv delta [kw_version kw_bit_timing kw_new_symbols kw_nodes kw_message kw_signal kw_envvar kw_comment kw_attribute
+               kw_attribute_default kw_attribute_value kw_value_descriptions kw_value_table kw_signal_value_type
+               kw_message_transmitters kw_envvar_data].
+    repeat (match goal with |- (if bytes_eqb ?a ?k then _ else _) _ = _ => destruct (bytes_eqb a k); cbv beta iota; [disp|] end).
+    disp.
+  Qed.
+
+  (** NewParser(data).Parse() with Defs() = Parser.parse: [TP_Parser_Parse_eq] with f = F, defs = [], st = p_init src *)
+  Lemma TP_Parser_Parse_eq : forall f defs st,
+    Parser_Parse_loop ilh idh F f defs st
+    = parse_loop_with ilh idh F (parse_bit_timing ilh idh F) (parse_unknown ilh idh F) (parse_message ilh idh F) f defs st.
+  Proof.
+    induction f; intros; [reflexivity|]. cbn [Parser_Parse_loop parse_loop_with]. norm.
+    destruct (peek_token ilh idh F st); try reflexivity. cbv beta iota.
+    destruct (t_typ a =? -1); cbv beta iota; [reflexivity|].
+    destruct (peek_keyword ilh idh F st0); try reflexivity. cbv beta iota. rewrite Parser_Parse_dispatch_eq.
+    destruct (parse_def_with _ _ _ _ _ _ _ _ _); try reflexivity. apply IHf.
   Qed.
 
 End Equiv.
